@@ -815,3 +815,8 @@ def _lt_mask(run, r, x):
 @specfn('n_true')
 def _n_true(run, m):
     return Num(T.bcnt(m.term))
+
+
+@specfn('isum_of')
+def _isum_of(run, u):
+    return Num(_la().isum(u.term))
